@@ -537,7 +537,7 @@ func transTVFTypeWithSet(visited SSet, recs RecTrace, transTV func(TypeVar) FTyp
 						return newNTPair(frt.Fst(tp), frt.Snd(tp))
 					}, _r0)
 				}))
-				ntargs := slice.Map(recurse, ut.Targs)
+				ntargs := slice.Map(inUnion, ut.Targs)
 				nut := UnionType{Name: ut.Name, Targs: ntargs}
 				nui := UnionTypeInfo{Cases: ncases}
 				updateUniInfo(nut, nui)
